@@ -106,18 +106,14 @@ func (b *bitMask256) toTypes(reg *registry) []ID {
 	types := make([]ID, count)
 
 	totalIDs := reg.Count()
-	bins := totalIDs/wordSize + 1
-	bits := totalIDs % wordSize
 
 	idx := 0
-	for i := range bins {
+	for i := range b.bits {
 		if b.bits[i] == 0 {
 			continue
 		}
-		cnt := wordSize
-		if i == bins-1 {
-			cnt = bits
-		}
+		// Number of registered IDs in this word; all 64 for full words.
+		cnt := min(totalIDs-i*wordSize, wordSize)
 		for j := range cnt {
 			id := ID{id: uint8(i*wordSize + j)}
 			if b.Get(id.id) {
